@@ -13,8 +13,8 @@ CLAIMED = {
    text="PageStore.tla (commit protocol, cache vs disk, Kill, PowerLoss over every subset of unsynced writes with tears) model-checked: AllImagesRecoverable / AfterCrash / durability hold for the protocol as repaired and fail for the pinned order (vacuity guard). Recorded commits of the real code are validated against the protocol (Trace_Page) and Gen_Crash enables Kill/PowerLoss at every position of the recorded write sequence; every abstract recipe is concretised (sector and word tears) and reopened by the real code: exactly pre or post, DB::check ok, further commit works.",
    note=L1NOTE + " Power-loss model as in the property text.", tech="TLA+ L1 spec + TLC; trace validation of the commit protocol; TLC-generated crash recipes replayed as file images"),
  "C03": dict(cat="model_checking", ref="DESIGN.md 6 (C03)",
-   text="PageStore readers configuration model-checked (ReaderPinned, ReaderIntact); Gen_Readers enumerates every single-threaded interleaving of opening/closing up to k readers with committing / rolling-back writers, replayed on the real code with every open reader re-read in full after every step; release bounds / allocations / overwrites of the same runs and of random multi-reader histories validated by Trace_Page against the readers that are really open. Hooks around Freelist::release list the pending entries before and after: an entry newer than the oldest snapshot in use must not disappear.",
-   note=L1NOTE, tech="TLA+ L0+L1 specs + TLC; exhaustive interleaving replay; trace validation"),
+   text="PageStore readers configuration model-checked (ReaderPinned, ReaderIntact); Gen_Readers enumerates every single-threaded interleaving of opening/closing up to k readers with committing / rolling-back writers, replayed on the real code with every open reader re-read in full after every step; release bounds / allocations / overwrites of the same runs and of random multi-reader histories validated by Trace_Page against the readers that are really open. Hooks around Freelist::release list the pending entries before and after: an entry newer than the oldest snapshot in use must not disappear. The release rule itself is proved without bounds with TLAPS (PageRules_Proofs.tla).",
+   note=L1NOTE, tech="TLA+ L0+L1 specs + TLC; exhaustive interleaving replay; trace validation; TLAPS proofs of the release rule"),
  "C04": dict(cat="model_checking", ref="DESIGN.md 6 (C04), 3.3, 4.5",
    text="Threads.tla (Tx::new / commit / resize / drop split at the yield hook points, five locks, release and allocation rules) model-checked without preemption bound: ReaderSafe, ReadsStable, Freshness; the pinned registration order violates ReaderSafe (vacuity guard). Gen_Threads enumerates all schedules with <= k preemptions of 1-2 readers against chains of page-reusing commits; each is forced on real threads parked at the hook points and the harness checks what every reader saw; seeded random schedules beyond the bound. Trace_Threads keeps the threads that hold a registration as ground truth for the registry (only the registering thread may deregister; release() is judged against it).",
    note="Trusted: TLC; transcription of the code into Threads.tla; schedules quantified at yield points only; harness-side observations.", tech="TLA+ L2 spec + TLC; TLC-generated schedules forced on real threads"),
